@@ -611,6 +611,93 @@ fn full_difat_sector(_ctx: &Ctx, ev: &mut Value) -> Option<Violation> {
     }
 }
 
+/// Direction B on a file that *needs* a DIFAT sector (7.3 MB payload: ~112 FAT sectors, all
+/// of them covering live sectors, one partly filled DIFAT sector): every injector alone
+/// (4 selector values) and every pair of injectors. On small files a DIFAT sector exists only
+/// through surplus FAT sectors, which cover nothing - dropping one of those is harmless.
+fn big_file_deviations(ev: &mut Value) -> Option<Violation> {
+    use crate::model::{Kind, Node};
+    let what = "V3 file that needs ~112 FAT sectors (one partly filled DIFAT sector): documented deviations singly and in pairs";
+    let mut model = Model::new();
+    model.insert(&[], Node { name: "payload".into(), state: 1, kind: Kind::Stream { data: pattern(21, 0, 7_300_000) } });
+    model.insert(&[], Node { name: "s".into(), state: 0, kind: Kind::Stream { data: pattern(22, 0, 700) } });
+    model.insert(&[], Node { name: "dir".into(), state: 5, kind: Kind::Storage { clsid: [7; 16], created: crate::model::TimeVal::Exact(0), modified: crate::model::TimeVal::Exact(130_000_000_000_000_000), children: vec![] } });
+    model.insert(&["dir".to_string()], Node { name: "tail".into(), state: 0, kind: Kind::Stream { data: pattern(23, 0, 5000) } });
+    model.insert(&["dir".to_string()], Node { name: "a".into(), state: 0, kind: Kind::Stream { data: pattern(24, 0, 64) } });
+    model.insert(&["dir".to_string()], Node { name: "b".into(), state: 0, kind: Kind::Stream { data: pattern(25, 0, 10) } });
+    let (img, info) = synthesize(&model, 3, &[9, 50000, 3, 41000, 77, 1, 2, 3], 0);
+    let parsed = match refparse::parse(&img) {
+        Ok(p) => p,
+        Err(e) => return Some(Violation { key: "harness|parse".into(), detail: e, case: Value::Null, trace: vec![] }),
+    };
+    if !parsed.rules.is_empty() || info.difat_sectors != 1 {
+        return Some(Violation { key: "harness|scenario".into(), detail: format!("scenario image: rules {:?}, {} DIFAT sectors", parsed.rules.first(), info.difat_sectors), case: Value::Null, trace: vec![] });
+    }
+    let known = crate::runner::Known::load();
+    let mut combos: Vec<Vec<(Dev, u16)>> = Vec::new();
+    for &d in ALL_DEVS {
+        for sel in [0u16, 1, 2, 3] {
+            combos.push(vec![(d, sel)]);
+        }
+    }
+    for (i, &a) in ALL_DEVS.iter().enumerate() {
+        for &b in ALL_DEVS.iter().skip(i + 1) {
+            combos.push(vec![(a, 0), (b, 0)]);
+            combos.push(vec![(a, 3), (b, 3)]);
+        }
+    }
+    let mut done = 0u64;
+    let mut known_seen = 0u64;
+    for combo in combos.iter() {
+        let mut b_img = img.clone();
+        let mut applied: Vec<Dev> = Vec::new();
+        for &(d, sel) in combo.iter() {
+            if apply_dev(&mut b_img, &parsed, d, sel) {
+                applied.push(d);
+            }
+        }
+        if applied.len() != combo.len() {
+            continue;
+        }
+        let mut names: Vec<String> = applied.iter().map(|d| format!("{:?}", d)).collect();
+        names.sort();
+        let r = (|| -> Result<(), Fail> {
+            let mut pm = match open_bytes(&b_img, false)? {
+                Ok(p) => p,
+                Err(e) => return Err(Fail::new(format!("B|permissive_rejects|{}", names.join("+")), format!("open rejects an image with documented deviations {:?}: {}", combo, e))),
+            };
+            let eng = Engine::from_image(img.clone(), model.clone(), 3, None, vec![], Oracles::default(), false)?;
+            if let Err(f) = eng.compare_dump(&mut pm, "deviation") {
+                return Err(Fail::new(format!("B|content_differs|{}", names.join("+")), format!("with deviations {:?}: {}", combo, f.detail)));
+            }
+            if open_bytes(&b_img, true)?.is_ok() {
+                return Err(Fail::new(format!("B|strict_accepts|{}", names.join("+")), format!("open_strict accepts an image with deviations {:?}", combo)));
+            }
+            Ok(())
+        })();
+        done += 1;
+        if let Err(f) = r {
+            if f.key.starts_with("harness|") {
+                return Some(Violation { key: f.key, detail: f.detail, case: Value::Null, trace: vec![] });
+            }
+            if known.lookup("C16", &f.key).is_some() {
+                known_seen += 1;
+                continue;
+            }
+            return Some(Violation { key: f.key, detail: format!("[{}] {}", what, f.detail), case: serde_json::json!({"scenario": what}), trace: vec![] });
+        }
+    }
+    ev["coverage"]["big_file_deviation_combinations"] = serde_json::json!({"checked": done, "fat_sectors": info.fat_sectors, "listed_known_combinations_seen": known_seen});
+    None
+}
+
+fn scenarios(ctx: &Ctx, ev: &mut Value) -> Option<Violation> {
+    if let Some(v) = full_difat_sector(ctx, ev) {
+        return Some(v);
+    }
+    big_file_deviations(ev)
+}
+
 pub fn def() -> PropDef {
     PropDef {
         id: "C16",
@@ -622,7 +709,7 @@ pub fn def() -> PropDef {
         worker,
         solo,
         hang_cpu_s: 30.0,
-        extra: Some(full_difat_sector),
+        extra: Some(scenarios),
         confirm_known: false,
     }
 }
